@@ -1226,7 +1226,44 @@ func (e *bEngine) doCall(st *bState, fr *bFrame, ci ssa.CallInstruction) {
 			e.note("builtin copy on non-polynomial slices is not modelled")
 			setRes(freshRes("copy"))
 		case "append":
-			panic(verr("append is outside the subset at %s", at))
+			// append(s, t...) with both lengths known: a new array holding the elements of s, then those of t
+			// (the model always reallocates: what the result shares with s is not tracked)
+			s1, ok1 := args[0].(bSlice)
+			s2, ok2 := args[1].(bSlice)
+			if ok1 && ok2 && len(args) == 2 {
+				l1, l2 := st.norm(s1.len), st.norm(s2.len)
+				if s1.nil_ {
+					l1 = ConstI(0)
+				}
+				if s2.nil_ {
+					l2 = ConstI(0)
+				}
+				if l1.IsConst() && l2.IsConst() && l1.Val.IsInt64() && l2.Val.IsInt64() && l1.Val.Int64()+l2.Val.Int64() <= 64 {
+					st.nextID++
+					id := st.nextID
+					var et types.Type
+					if !s1.nil_ {
+						et = e.obj(st, s1.arr).typ
+					} else if !s2.nil_ {
+						et = e.obj(st, s2.arr).typ
+					}
+					no := &bObject{id: id, typ: et, arr: true, elems: map[string]bVal{}, sym: e.freshName("appended")}
+					st.objs[id] = no
+					k := int64(0)
+					for _, src := range []struct {
+						sl bSlice
+						n  int64
+					}{{s1, l1.Val.Int64()}, {s2, l2.Val.Int64()}} {
+						for i := int64(0); i < src.n; i++ {
+							no.elems[fmt.Sprintf("[%d]", k)] = cloneVal(e.loadAt(st, bPtr{obj: src.sl.arr, path: fmt.Sprintf("/[%d]", i)}))
+							k++
+						}
+					}
+					setRes(bSlice{arr: id, len: ConstI(k), cap: ConstI(k)})
+					break
+				}
+			}
+			panic(verr("append with lengths the execution does not know is outside the subset at %s", at))
 		default:
 			setRes(freshRes(b.Name()))
 		}
